@@ -58,6 +58,7 @@ type progCfg struct {
 	extraSize uint // bytes added to MaxSize (a maximum that is not a multiple of the page size)
 	extent    uint // if > 0: page ids may reach this bound (file shrunk below its extent)
 	concrete  bool // page contents are concrete sequence numbers instead of solver variables
+	capacity  int  // size of the simulated disk in bytes (0: 96 KiB)
 }
 
 const (
@@ -110,6 +111,9 @@ type progState struct {
 
 func verifNewProg(cfg *progCfg) *progState {
 	capacity := 96 * 1024
+	if cfg.capacity > 0 {
+		capacity = cfg.capacity
+	}
 	disk := newMemFile(capacity)
 	f, err := openWith(disk, cfg.options())
 	verifAssert(err == nil, "creating a file on an empty disk succeeds")
